@@ -114,6 +114,9 @@ Proof.
   - cbn [apply_loop splice fold_right]. apply Nat.leb_le in L. rewrite L. reflexivity.
   - cbn [chain] in C. destruct C as [C1 [C2 C3]]. inversion B as [|? ? B1 B2]; subst.
     cbn [apply_loop].
+    assert (SK : skip_patch p pos (length s) = false).
+    { unfold skip_patch. apply orb_false_iff. split; [apply orb_false_iff; split|]; apply Nat.ltb_ge; lia. }
+    rewrite SK, andb_false_r.
     assert (L1 : Nat.leb pos (p_start p) = true) by (apply Nat.leb_le; exact C1).
     assert (L2 : Nat.leb (p_start p) (length s) = true) by (apply Nat.leb_le; lia).
     rewrite L1, L2. cbn [andb].
@@ -177,22 +180,71 @@ Definition apply_never_damages : Prop :=
 Definition witness_patches : list patch := [mkPatch 66 79 [1]%N; mkPatch 66 84 [2]%N].
 Definition witness_text : list N := repeat 7%N 100.
 
-Lemma apply_never_damages_refuted : ~ apply_never_damages.
+Lemma apply_never_damages_refuted : skips_overlapping = false -> ~ apply_never_damages.
 Proof.
-  intro H. destruct (H witness_patches witness_text) as [out E].
+  intros Hs H. destruct (H witness_patches witness_text) as [out E].
   - repeat constructor; cbn; lia.
   - unfold in_bounds. repeat constructor; cbn; lia.
-  - revert E. unfold apply, sort_patches. destruct sorts_by_start; vm_compute; discriminate.
+  - revert E Hs. unfold apply, sort_patches. destruct sorts_by_start; vm_compute; intros; congruence.
 Qed.
 
 (* and, as the code stands (the file is truncated before the loop), the file
    is left holding a strict prefix of the intended output *)
 Lemma overlap_damages_file :
-  sorts_by_start = true -> truncates_before_writing = true ->
+  sorts_by_start = true -> truncates_before_writing = true -> skips_overlapping = false ->
   apply witness_patches witness_text = Damaged (repeat 7%N 66 ++ [1]%N).
 Proof.
-  intros H1 H2. vm_compute in H1, H2 |- *.
-  first [ reflexivity | discriminate H1 | discriminate H2 ].
+  intros H1 H2 H3. vm_compute in H1, H2, H3 |- *.
+  first [ reflexivity | discriminate H1 | discriminate H2 | discriminate H3 ].
+Qed.
+
+(* ------------------------------------------------------------ the repaired loop *)
+(* with the guard, every patch list on every text gives a complete file: the
+   patches that are kept form a chain inside the text, the others are skipped *)
+Lemma keep_chain : forall ps pos len, pos <= len ->
+  chain pos (keep pos len ps) /\ Forall (fun p => p_end p <= len) (keep pos len ps).
+Proof.
+  induction ps as [|p ps IH]; intros pos len L; cbn [keep]; [split; [exact I|constructor]|].
+  destruct (skip_patch p pos len) eqn:SK; [apply IH; exact L|].
+  unfold skip_patch in SK. apply orb_false_iff in SK. destruct SK as [SK S3].
+  apply orb_false_iff in SK. destruct SK as [S1 S2].
+  apply Nat.ltb_ge in S1, S2, S3.
+  destruct (IH (p_end p) len S3) as [C B].
+  split; [cbn [chain]; repeat split; assumption|constructor; assumption].
+Qed.
+
+Lemma apply_loop_keep : skips_overlapping = true -> forall ps s pos w,
+  apply_loop ps s pos w = apply_loop (keep pos (length s) ps) s pos w.
+Proof.
+  intros Hs. induction ps as [|p ps IH]; intros s pos w; cbn [keep]; [reflexivity|].
+  destruct (skip_patch p pos (length s)) eqn:SK.
+  - cbn [apply_loop]. rewrite Hs, SK. cbn [andb]. apply IH.
+  - cbn [apply_loop]. rewrite SK, andb_false_r.
+    destruct (Nat.leb pos (p_start p) && Nat.leb (p_start p) (length s)); [apply IH|reflexivity].
+Qed.
+
+Theorem apply_skips_spec : skips_overlapping = true -> forall ps s,
+  apply ps s = Ok (splice (keep 0 (length s) (sort_patches ps)) s).
+Proof.
+  intros Hs ps s. unfold apply. rewrite (apply_loop_keep Hs).
+  destruct (keep_chain (sort_patches ps) 0 (length s) (Nat.le_0_l _)) as [C B].
+  apply apply_loop_chain; [exact C|exact B|lia].
+Qed.
+
+(* "the tool never damages the file it rewrites" holds of the repaired code *)
+Theorem apply_never_damages_repaired : skips_overlapping = true -> apply_never_damages.
+Proof. intros Hs ps s _ _. eexists. apply apply_skips_spec. exact Hs. Qed.
+
+(* nothing is skipped when the sorted patches are a chain inside the text *)
+Lemma keep_chain_id : forall ps pos len,
+  chain pos ps -> Forall (fun p => p_end p <= len) ps -> keep pos len ps = ps.
+Proof.
+  induction ps as [|p ps IH]; intros pos len C B; [reflexivity|].
+  cbn [chain] in C. destruct C as [C1 [C2 C3]]. inversion B; subst.
+  cbn [keep].
+  assert (SK : skip_patch p pos len = false).
+  { unfold skip_patch. apply orb_false_iff. split; [apply orb_false_iff; split|]; apply Nat.ltb_ge; lia. }
+  rewrite SK. f_equal. apply IH; assumption.
 Qed.
 
 (* under the guard that excludes the known class *)
